@@ -6,6 +6,9 @@ Driver glue for C40.  Bytes are lower-case hex, `-` = empty; lists of byte strin
         DATA stream; that stream is cut into pieces of the given sizes (what is left after the last
         size is one more piece, if non-empty) and fed to a server that has just replied `354`
       → `wire=<hex> ev=<events> mode=<DATA|COMMAND|?> buf=<hex|?>`
+  `C40 sess <maxLen> <prev bodies> <chunks> <sizes>`  as `e2e`, but the server has first received the earlier
+        messages of the session (each body read in one chunk and delivered in one piece, line limit 16384), and
+        is put into DATA mode by the model of `do_DATA` → same line as `e2e`
   `C40 cli <chunks>`                   → `wire=<hex>`
   `C40 srv <maxLen> <segments>`        raw segments fed to a server that has just replied `354`
       → `ev=<events> mode=… buf=…`
@@ -81,6 +84,12 @@ def handle (args : List String) : String :=
       let w := sendFile cs
       "wire=" ++ encHex w ++ " " ++ showRun (feed m initData (cut w ss))
     | _, _, _ => "bad-op"
+  | ["sess", m, ps, cs, ss] =>
+    match m.toNat?, decList ps, decList cs, decSizes ss with
+    | some m, some ps, some cs, some ss =>
+      let w := sendFile cs
+      "wire=" ++ encHex w ++ " " ++ showRun (feed m (afterSession 16384 {} ps) (cut w ss))
+    | _, _, _, _ => "bad-op"
   | ["cli", cs] =>
     match decList cs with
     | some cs => "wire=" ++ encHex (sendFile cs)
